@@ -15,7 +15,7 @@ Section AJoin.
   Definition joining_as (n : N) (c : credentials) (d : adev) : Prop := m_state (ad_mac d) = Otaa n c.
 
   Lemma na_call c e w e1 ok : call e w = (e1, ok) -> no_accept c e -> no_accept c e1.
-  Proof. unfold call, tr, no_accept. destruct (match e_fault e with Some k => k =? e_calls e | None => false end); intros H; injection H as <- _; cbn [e_script]; auto. Qed.
+  Proof. unfold call, tr, no_accept. destruct (faulty e); intros H; injection H as <- _; cbn [e_script]; auto. Qed.
   Lemma na_tr c e t : no_accept c e -> no_accept c (tr e t).
   Proof. unfold tr, no_accept. cbn [e_script]. auto. Qed.
   Lemma na_pop c e ev e1 : pop e = (ev, e1) -> no_accept c e ->
